@@ -121,6 +121,9 @@ pub fn run(run: &mut Run) {
     // two mutator threads requesting concurrently (scenario req2: the same children as C11's baton
     // phase; C14 owns their sched: verdicts)
     plans.extend(crate::props::c11b::plans(run.tier));
+    // a collection request and a fork request in flight together (scenario forkreq: the children of
+    // C16; C14 owns their sched: verdicts -- the request is served, before or after the round trip)
+    plans.extend(crate::props::c16::forkreq_plans(run.tier));
     run.set("child_processes", plans.len() as u64);
     sched::run_parent(run, plans, &owns, run.tier.pick(300, 3000));
     finish(run);
